@@ -153,7 +153,7 @@ func (p *c16Persist) sender(f *flow.Func, okExit func(st *flow.State) bool, dept
 						} else if why2 != "" {
 							w = why2
 						}
-					} else if fo, isF := f.Callee(s.Call).(*types.Func); isF {
+					} else if fo, isF := c16FnOK(f, s.Call); isF {
 						if d := p.e.decls[fo]; d != nil {
 							if ok2, why2, _ := p.sender(flow.NewFunc(p.e.pkg, d), nil, depth+1); ok2 {
 								w = ""
@@ -285,7 +285,7 @@ func c16PersistRule(e *c16Env) {
 				}
 			},
 			OnCall: func(st *flow.State, call *ast.CallExpr, callee types.Object, d bool) {
-				if calleeIs(f, call, "(*"+mq+".Session).store") {
+				if c16Is(f, call, "(*"+mq+".Session).store") {
 					st.Set(evDirty, flow.False)
 				}
 			}})
@@ -369,7 +369,7 @@ func c16PersistRule(e *c16Env) {
 			shape, why = false, "unexpected put signature"
 		default:
 			kc, isC := ast.Unparen(put.Args[0]).(*ast.CallExpr)
-			if !isC || !calleeIs(f, kc, mq+".sessionStoreKey") || len(kc.Args) != 1 || !c16Sel(f, kc.Args[0], p.kvKeyF) || c16Obj(f, c16Root(kc.Args[0])) != kvObj {
+			if !isC || !c16Is(f, kc, mq+".sessionStoreKey") || len(kc.Args) != 1 || !c16Sel(f, kc.Args[0], p.kvKeyF) || c16Obj(f, c16Root(kc.Args[0])) != kvObj {
 				shape, why = false, "the snapshot is not put under sessionStoreKey(<received>.key): sessMgr.get would not find it on reconnect"
 			} else if !c16Sel(f, put.Args[1], p.kvValF) || c16Obj(f, c16Root(put.Args[1])) != kvObj {
 				shape, why = false, "the value put is not the received snapshot's value"
